@@ -278,6 +278,21 @@ bool apply_workload_edit(std::string& d, const Step& st)
     static const char* H[] = {"0.015", "0.0125", "0.0075"};
     insert_attr(T, std::string(n) + "=\"" + H[st.arg(2) % 3] + "\""); return true;
   }
+  if (st.op == "cdh") {
+    // the instrument height stated once for the whole stand (<obs from_dh=...>), and one of its observations with
+    // an explicit height of its own (possibly zero)
+    std::vector<int> v = tags_named({"obs"}); std::vector<int> ok;
+    for (int t : v) { const xmlscan::Tag& T = S.tags[t]; if (T.empty || T.match < 0 || has_attr(T, "from_dh")) continue; ok.push_back(t); }
+    if (ok.empty()) return false;
+    int t = ok[(size_t)st.arg(0) % ok.size()]; const xmlscan::Tag& T = S.tags[t];
+    // children: observation elements between the start tag and its end tag
+    std::vector<int> kids; for (int c = t + 1; c < T.match; c++) { const std::string& n = S.tags[c].name; if (S.tags[c].start && (n == "z-angle" || n == "s-distance" || n == "direction" || n == "distance" || n == "azimuth") && !has_attr(S.tags[c], "from_dh")) kids.push_back(c); }
+    static const char* H[] = {"0.015", "0.0125", "0.02"};
+    // insert from the back so that offsets stay valid
+    if (!kids.empty()) { const xmlscan::Tag& K = S.tags[kids[(size_t)st.arg(1) % kids.size()]]; static const char* Z[] = {"0", "0", "0.005"}; insert_attr(K, std::string("from_dh=\"") + Z[st.arg(2) % 3] + "\""); }
+    d.insert(T.e - 1, std::string(" from_dh=\"") + H[st.arg(2) % 3] + "\" ");
+    return true;
+  }
   if (st.op == "ext") {
     std::vector<int> v = tags_named({"z-angle", "s-distance", "direction", "distance", "azimuth", "angle", "dh", "vec"}); if (v.empty()) return false;
     const xmlscan::Tag& T = S.tags[v[(size_t)st.arg(0) % v.size()]]; if (has_attr(T, "extern")) return false;
@@ -475,8 +490,8 @@ Plan RestartEngine::generate(uint64_t seed, uint64_t, const std::string&)
   p.set("extra", extra); p.set("extra_later", later);
   if (g.chance(1, 3)) { p.seti("noxml", 1); if (g.chance(1, 2)) p.set("angular", "--angular 360"); else if (g.chance(1, 4)) p.set("angular", "--angular 400"); }
   int ne = g.chance(1, 3) ? 0 : (int)g.range(1, 4);
-  static const char* W[] = {"dh", "dh", "adh", "ext", "dist", "status", "noise", "prec", "prec", "ids"};
-  for (int i = 0; i < ne; i++) { Step s; s.op = W[g.below(10)]; s.a = {(long long)g.below(1000), (long long)g.below(1000), (long long)g.below(1000)}; p.steps.push_back(s); }
+  static const char* W[] = {"dh", "dh", "adh", "ext", "dist", "status", "noise", "prec", "prec", "ids", "cdh", "cdh"};
+  for (int i = 0; i < ne; i++) { Step s; s.op = W[g.below(12)]; s.a = {(long long)g.below(1000), (long long)g.below(1000), (long long)g.below(1000)}; p.steps.push_back(s); }
   return p;
 }
 
